@@ -137,3 +137,65 @@ Proof. intro H. unfold log_url_line, log_short_url_line. rewrite H. split; refle
 Lemma unredacted_refuted :
   exists p1 p2, render_scalar R_NONE (VUserinfo (Some ([117], Some p1))) <> render_scalar R_NONE (VUserinfo (Some ([117], Some p2))).
 Proof. exists [49], [50]. vm_compute. discriminate. Qed.
+
+(* ================================================================== parse, then redact: from the ARGUMENT STRING
+   For every password -- colons, at-signs, anything -- what is printed for `user:password` and for
+   `user:password@host:port` is the user, the fixed placeholder and host and port. *)
+Lemma cut_byte_first c x y : ~ In c x -> cut_byte c (x ++ c :: y) = Some (x, y).
+Proof.
+  induction x as [|d x IH]; intro H; simpl.
+  - rewrite N.eqb_refl. reflexivity.
+  - destruct (N.eqb c d) eqn:E; [apply N.eqb_eq in E; subst; exfalso; apply H; left; reflexivity|].
+    rewrite IH; [reflexivity|]. intro Hin. apply H. right. exact Hin.
+Qed.
+
+Lemma cut_last_none c y : ~ In c y -> cut_last c y = None.
+Proof.
+  induction y as [|d y IH]; intro H; simpl; [reflexivity|].
+  rewrite IH by (intro Hin; apply H; right; exact Hin).
+  destruct (N.eqb c d) eqn:E; [apply N.eqb_eq in E; subst; exfalso; apply H; left; reflexivity|reflexivity].
+Qed.
+
+Lemma cut_last_last c x y : ~ In c y -> cut_last c (x ++ c :: y) = Some (x, y).
+Proof.
+  intro H. induction x as [|d x IH]; simpl.
+  - rewrite (cut_last_none c y H), N.eqb_refl. reflexivity.
+  - rewrite IH. reflexivity.
+Qed.
+
+Lemma parse_userinfo_pass u p : u <> [] -> ~ In 58 u -> parse_userinfo (u ++ 58 :: p) = Some (u, Some p).
+Proof.
+  intros Hne Hc. unfold parse_userinfo. rewrite cut_byte_first by exact Hc.
+  destruct u as [|a u]; [contradiction|]. reflexivity.
+Qed.
+
+Section ParseRedact.
+  Hypothesis Hui : redact_userinfo_hides_password = true.
+  Hypothesis Hhpu : redact_hpu_hides_password = true.
+
+  Lemma parse_redact_userinfo u p : u <> [] -> ~ In 58 u ->
+    redact_userinfo (parse_userinfo (u ++ 58 :: p)) = u ++ userinfo_placeholder_suffix.
+  Proof. intros Hne Hc. rewrite parse_userinfo_pass by assumption. unfold redact_userinfo. rewrite Hui. reflexivity. Qed.
+
+  Lemma parse_redact_hpu u p h port :
+    u <> [] -> ~ In 58 u -> h <> [] -> port <> [] ->
+    ~ In 64 h -> ~ In 64 port -> ~ In 58 port ->
+    redact_hpu (parse_hpu ((u ++ 58 :: p) ++ 64 :: (h ++ 58 :: port))) =
+      u ++ userinfo_placeholder_suffix ++ [64] ++ h ++ [58] ++ show_port (norm_port port).
+  Proof.
+    intros Hu Hc Hh Hp Hah Hap Hcp. unfold parse_hpu.
+    rewrite cut_last_last.
+    2:{ intro Hin. apply in_app_or in Hin as [Hin|[Hin|Hin]]; [exact (Hah Hin)|discriminate Hin|exact (Hap Hin)]. }
+    rewrite parse_userinfo_pass by assumption.
+    rewrite (cut_last_last 58 h port Hcp).
+    destruct h as [|h0 h']; [contradiction|]. destruct port as [|p0 port']; [contradiction|].
+    unfold redact_hpu. rewrite Hhpu. reflexivity.
+  Qed.
+
+  (* non-interference from the argument string: two arguments that differ only in the password print the same *)
+  Lemma parse_redact_hpu_ni u p1 p2 h port :
+    u <> [] -> ~ In 58 u -> h <> [] -> port <> [] -> ~ In 64 h -> ~ In 64 port -> ~ In 58 port ->
+    redact_hpu (parse_hpu ((u ++ 58 :: p1) ++ 64 :: (h ++ 58 :: port))) =
+    redact_hpu (parse_hpu ((u ++ 58 :: p2) ++ 64 :: (h ++ 58 :: port))).
+  Proof. intros. rewrite !parse_redact_hpu by assumption. reflexivity. Qed.
+End ParseRedact.
